@@ -82,8 +82,11 @@ def gen_programs(rng, thorough):
             call("ArrayContains", [a, (render_arg(x) if not isinstance(x, list) else "States.Array(1)", x, True)])
     for s, e, i in [(1, 9, 2), (5, 1, -2), (0, 0, 1), (3, 1, 1), (1, 3, -1), (1, 1000, 1), (1, 1001, 1), (0, 5, 0), (-3, 3, 3), (10, -10, -7), (1, 10, 20), (0, 999, 1)]:
         call("ArrayRange", [(str(s), s, True), (str(e), e, True), (str(i), i, True)])
-    for a, b in [(1, 2), (-5, 5), (10 ** 12, 1), (0, 0)]:
+    for a, b in [(1, 2), (-5, 5), (10 ** 12, 1), (0, 0), (9007199254740993, 1), (-9007199254740993, 2), (2 ** 62, 5)]:       # (integer literals beyond 2^53 stay exact)
         call("MathAdd", [(str(a), a, True), (str(b), b, True)])
+    # a literal written as a float is a float, not an integer: MathAdd / ArrayGetItem / ArrayRange take integers only
+    for text in ("States.MathAdd(2.0, 1)", "States.MathAdd(1, 1e3)", "States.ArrayGetItem(States.Array(1, 2, 3), 1.0)", "States.ArrayRange(1.0, 3, 1)", "States.Array(2.0, 1e3, 1.5)"):
+        P.append(({"out.$": text}, None))
     for d, seps in [("a^b,c", "^,"), ("a,b,,c", ","), ("a]b-c", "]-"), ("abc", "x"), ("", ","), ("a.b", "."), ("a\\b", "\\"), ("x y", " "), ("a,b", ""), ("[a]", "[]")]:
         call("StringSplit", [(lit(d), d.replace("\\'", "'"), "\\" not in d), (lit(seps), seps, "\\" not in seps)])
     P.append(({"out.$": "States.JsonMerge($.o, $.b, false)"}, ("JsonMerge", [INPUT["o"], INPUT["b"], False])))
